@@ -26,7 +26,7 @@ at least one check that should have caught the change missed it when first run (
 strengthened — never loosened — and the change is caught since. Two seeds (C03-cont-drops-signal,
 C18-dso-name-strict-read) had to be re-expressed on the current code after a `fix:` commit touched the same
 lines (original diff kept next to it); after the audit-round fixes eleven more (and later eleven again) were re-expressed the same way and six became
-unreachable or equivalent and were retired to `/verif/seeded-retired/` with the reason (not counted here). A few changes are the same mistake found independently by two
+unreachable or equivalent and were retired to `/verif/seeded-retired/` with the reason (not counted here). After the fifth and sixth audit waves' fixes sixteen more seeds were re-expressed (stop wait, read strategies, mapping aggregation, directory entry) and eight demonstrations were adjusted because they had relied on behaviour the fixes changed (a stop that times out for a process with an exited leader; an entry's type appearing in one piece) - each with the earlier version kept next to it and the reason in its `meta.json`. A few changes are the same mistake found independently by two
 agents (e.g. the UTF-16 length taken from `chars().count()`); they are kept as separate entries.
 Three genuine defects of `/repo` were found on the way (C18 DSO name at a mapping end; C18 reads through
 the process id with an exited leader; no mappings at all for a process with an exited leader), see 8.3.
